@@ -15,6 +15,7 @@ class C20(Check):
     required_theorems = ["netstring_roundtrip", "netstring_accepts_only_canonical", "netstring_reader_outcomes",
                          "limit_before_payload", "allocation_bounded", "frames_split_regardless_of_chunking",
                          "netstring_prefix_parse", "buffered_reader_total", "buffered_reader_lenient", "tls_model_meets_spec", "framed_model_meets_spec",
+                         "hostile_buffered_meets_spec", "hostile_model_meets_spec",
                          ] + JSON_THEOREMS
     technique = ("Lean 4 proof (round-trip laws, 'accepted implies canonical', invariant over the chunked read loop) about hand-written "
                  "executable models of the netstring readers/writer and of the JSON codec; correspondence by differential execution of the real "
@@ -49,8 +50,10 @@ class C20(Check):
         "the harness's ChunkStream (one prepared chunk per Read, EOF after the last) stands for an arbitrary Stream; real FIFO and StdioStream are driven as well",
     ]
 
+    _env = None   # environment of harness runs (sanitizer options during the sanitizer pass)
+
     def _run(self, harness_cmd, driver, save):
-        hrc, herr, drc, lines = runner.pipeline(harness_cmd, [driver], save)
+        hrc, herr, drc, lines = runner.pipeline(harness_cmd, [driver], save, env=self._env)
         if hrc != 0:
             raise core.TieBroken("harness:c20:run", f"rc={hrc} (harness failure; crashes of the real code are reported per operation as X lines)\n{herr}")
         if drc != 0:
@@ -118,6 +121,132 @@ class C20(Check):
         by = runner.ddmin([], by, lambda bs: self._fails(harness, driver, [mk(bs)], want))
         return [mk(by)]
 
+    def _collect(self, lines, save, harness, driver, res, tag):
+        """Turn the driver's SPECFAIL/MISMATCH/BADLINE lines into shrunk findings."""
+        bad = [l for l in lines if l.startswith("BADLINE")]
+        if bad:
+            res.corr_failures.append(runner.Finding("corr", "protocol" + tag, bad[:5]))
+        seen = set()
+        for l in lines:
+            if l.startswith("SPECFAIL"):
+                kv = core.parse_kv(l)
+                if kv["clause"] in seen:
+                    continue
+                seen.add(kv["clause"])
+                case = self._line(save, int(kv["line"]))
+                small = self._shrink(harness, driver, case, "SPECFAIL", save, int(kv["line"]))
+                self._fails(harness, driver, small, "SPECFAIL")
+                shown = open(self.work("shrink.out")).read().splitlines()
+                detail = {"driver": l}
+                if tag:
+                    detail["sanitizer_report"] = self._san_report()
+                    detail["harness"] = harness
+                res.spec_failures.append(runner.Finding("spec", "spec:C20:" + kv["clause"] + tag, shown, detail))
+        seen = set()
+        for l in lines:
+            if l.startswith("MISMATCH") and len(seen) < 3:
+                kv = core.parse_kv(l)
+                if kv.get("kind") in seen:
+                    continue
+                seen.add(kv.get("kind"))
+                case = self._line(save, int(kv["line"]))
+                small = self._shrink(harness, driver, case, "MISMATCH")
+                self._fails(harness, driver, small, "MISMATCH")
+                shown = open(self.work("shrink.out")).read().splitlines()
+                res.corr_failures.append(runner.Finding("corr", "observation:" + kv.get("kind", "?") + tag, shown, {"driver": l}))
+
+    # ------------------------------------------------------------------ sanitizer pass (thorough tier)
+    SAN_SOURCES = ["lib/base/json.cpp", "lib/base/netstring.cpp", "lib/base/stream.cpp", "lib/base/fifo.cpp",
+                   "lib/base/stdiostream.cpp", "lib/base/utility.cpp", "lib/remote/jsonrpc.cpp"]
+    SAN_FLAGS = ["-fsanitize=address,undefined", "-fno-sanitize-recover=undefined", "-fno-sanitize=vptr",
+                 "-fno-omit-frame-pointer", "-O1", "-g1"]
+
+    def _san_report(self):
+        import glob, os
+        files = sorted(glob.glob(self.work("asan", "report.*")), key=os.path.getmtime)
+        return open(files[-1], errors="replace").read()[:6000] if files else ""
+
+    def build_asan(self):
+        """Compile only the codec sources (and the harness) with ASan+UBSan into _work/c20/asan/ and link
+        `h_c20_asan` against the otherwise unchanged object files."""
+        import os, subprocess
+        from concurrent.futures import ThreadPoolExecutor
+        d = os.path.dirname(self.work("asan", "x"))
+        base = ["g++", "-std=c++17", "-w", f"-D{core.GUARD}", "-DBOOST_ASIO_USE_TS_EXECUTOR_AS_DEFAULT",
+                "-DBOOST_COROUTINES_NO_DEPRECATION_WARNING", "-DBOOST_FILESYSTEM_NO_DEPRECATED", "-D_GNU_SOURCE",
+                "-DNDEBUG", "-pthread"] + self.SAN_FLAGS + core.include_flags() + ["-isystem", os.path.join(core.REPO, "third-party/mmatch"), "-isystem", os.path.join(core.REPO, "third-party/execvpe"), "-isystem", os.path.join(core.REPO, "third-party/socketpair")]
+        jobs = [(os.path.join(core.REPO, src), os.path.join(d, src.replace("/", "_") + ".o")) for src in self.SAN_SOURCES]
+        jobs.append((os.path.join(core.HARNESS, "c20.cpp"), os.path.join(d, "c20_harness.o")))
+
+        def stale(src, obj):
+            dep = obj + ".d"
+            if not (os.path.exists(obj) and os.path.exists(dep)):
+                return True
+            t = os.path.getmtime(obj)
+            txt = open(dep).read().replace("\\\n", " ")
+            deps = txt.split(":", 1)[1].split() if ":" in txt else [src]
+            return any((not os.path.exists(x)) or os.path.getmtime(x) > t for x in deps)
+
+        def compile_one(job):
+            src, obj = job
+            if not stale(src, obj):
+                return 0, ""
+            return core.run(base + ["-MD", "-MF", obj + ".d", "-c", src, "-o", obj])
+
+        with core.Lock("harness_c20_asan"):
+            t0 = __import__("time").time()
+            with ThreadPoolExecutor(8) as ex:
+                results = list(ex.map(compile_one, jobs))
+            for (src, _), (rc, out) in zip(jobs, results):
+                if rc != 0:
+                    raise core.TieBroken("harness:c20:asan-compile:" + os.path.basename(src), out[-5000:])
+            exe = os.path.join(core.BIN, "h_c20_asan")
+            replaced = tuple("/" + os.path.basename(src) + ".o" for src in self.SAN_SOURCES)
+            objs = [o for o in core.repo_objects() if "/lib/cli/" not in o and not o.endswith(replaced)]
+            mine = [obj for _, obj in jobs]
+            newest = max(os.path.getmtime(x) for x in objs + mine)
+            if not (os.path.exists(exe) and os.path.getmtime(exe) >= newest):
+                rsp = os.path.join(d, "link.rsp")
+                with open(rsp, "w") as f:
+                    f.write("\n".join(objs + mine))
+                rc, out = core.run(["g++", "-pthread", "-fsanitize=address,undefined", "-o", exe, "@" + rsp] + core.LIBS)
+                if rc != 0:
+                    raise core.TieBroken("harness:c20:asan-link", out[-5000:])
+            core.log("sanitizer harness h_c20_asan ready (%.1fs)" % (__import__("time").time() - t0))
+        return exe
+
+    def _sanitizer_pass(self, seed, driver, res):
+        """Thorough tier: the corpus and the quick generator's operations once more through the ASan/UBSan
+        build of the codec sources.  A sanitizer report ends the child: `X` line = clause no_crash, with the input."""
+        import glob, os
+        exe = self.build_asan()
+        for f in glob.glob(self.work("asan", "report.*")):
+            os.remove(f)
+        self._env = dict(os.environ,
+                         ASAN_OPTIONS="abort_on_error=1:detect_leaks=0:detect_container_overflow=0:detect_stack_use_after_return=0:"
+                                      "handle_segv=0:handle_abort=0:log_path=" + self.work("asan", "report"),
+                         UBSAN_OPTIONS="print_stacktrace=1:halt_on_error=1:log_path=" + self.work("asan", "report"))
+        try:
+            for f in sorted(glob.glob(os.path.join(core.ROOT, "corpus", "C20", "*.ops"))):
+                save = self.work("asan_corpus.out")
+                out = self._run([exe, "ops", f], driver, save)
+                self._collect(out, save, exe, driver, res, ":sanitizer")
+            save = self.work("gen_asan.out")
+            lines = self._run([exe, "gen", "--seed", str(seed), "--tier", "quick"], driver, save)
+            st = {}
+            for l in lines:
+                if l.startswith("STATS"):
+                    st = {k: int(v) for k, v in core.parse_kv(l).items()}
+            if not st:
+                raise core.TieBroken("driver:c20:no-stats:sanitizer", "\n".join(lines[-20:]))
+            res.extra["sanitizer_pass"] = {"flags": " ".join(self.SAN_FLAGS), "sources": self.SAN_SOURCES, "cases": st["cases"],
+                                           "evaluations": st["steps"], "crashes": st.get("crashes", 0),
+                                           "mismatches": st["mismatches"], "specfails": st["specfails"]}
+            res.evaluations += st["steps"]
+            self._collect(lines, save, exe, driver, res, ":sanitizer")
+        finally:
+            self._env = None
+
     def correspondence(self, tier, seed, harness, driver):
         res = runner.Result()
         lines = []
@@ -157,33 +286,9 @@ class C20(Check):
                     "counts as non-trivial (distinct by hash of its operation line, counted by the Lean driver) when it produced an item/error/non-EOF outcome, "
                     "an escape, a container or a fraction")
         res.samples = [self._line(save, k)[:300] for k in (1, 2, 110100, 170100, 185000, 260000, 264000, 270000, 299000) if self._line(save, k)]
-        bad = [l for l in lines if l.startswith("BADLINE")]
-        if bad:
-            res.corr_failures.append(runner.Finding("corr", "protocol", bad[:5]))
-        seen = set()
-        for l in lines:
-            if l.startswith("SPECFAIL"):
-                kv = core.parse_kv(l)
-                if kv["clause"] in seen:
-                    continue
-                seen.add(kv["clause"])
-                case = self._line(save, int(kv["line"]))
-                small = self._shrink(harness, driver, case, "SPECFAIL", save, int(kv["line"]))
-                self._fails(harness, driver, small, "SPECFAIL")
-                shown = open(self.work("shrink.out")).read().splitlines()
-                res.spec_failures.append(runner.Finding("spec", "spec:C20:" + kv["clause"], shown, {"driver": l}))
-        seen = set()
-        for l in lines:
-            if l.startswith("MISMATCH") and len(seen) < 3:
-                kv = core.parse_kv(l)
-                if kv.get("kind") in seen:
-                    continue
-                seen.add(kv.get("kind"))
-                case = self._line(save, int(kv["line"]))
-                small = self._shrink(harness, driver, case, "MISMATCH")
-                self._fails(harness, driver, small, "MISMATCH")
-                shown = open(self.work("shrink.out")).read().splitlines()
-                res.corr_failures.append(runner.Finding("corr", "observation:" + kv.get("kind", "?"), shown, {"driver": l}))
+        self._collect(lines, save, harness, driver, res, "")
+        if tier == "thorough":
+            self._sanitizer_pass(seed, driver, res)
         return res
 
     def replay(self, path, harness, driver):
